@@ -201,6 +201,21 @@ def cmp_cases(rng, n):
             m = ln if rng.random() < 0.85 else rng.randint(0, 6)
             other = [form, [rng.choice(pool) for _ in range(m)]]
         cs.append({"op": "cmp", "fn": rng.choice(CMP_FNS), "xs": xs, "other": other, "name": rng.choice([None, "x"])})
+    # operands that are equal for hash() (and so for fingerprint()) but not for ==: -1 / -2, x / x + (2**61-1),
+    # nan / nan (nan != nan) -- compared AFTER both fingerprints were computed and cached ("fp": true), and
+    # without; a comparison shortcut through any cached summary of the operands must not change the answer
+    M61 = 2 ** 61 - 1
+    twins = [(["i", -1], ["i", -2]), (["i", 0], ["i", M61]), (["i", 5], ["i", 5 + M61]),
+             (["f", float("nan").hex()], ["f", float("nan").hex()]), (["f", (0.0).hex()], ["f", (-0.0).hex()])]
+    for fn in ("eq", "ne", "lt", "le", "gt", "ge"):
+        for a, b in twins:
+            for fp in (True, False):
+                for form in ("vec", "list"):
+                    k = rng.randint(0, 2)
+                    pre = [rng.choice([["i", 3], ["i", 7], ["f", (1.5).hex()]]) for _ in range(k)]
+                    post = [rng.choice([["i", 3], ["i", 7]]) for _ in range(rng.randint(0, 2))]
+                    cs.append({"op": "cmp", "fn": fn, "xs": pre + [a] + post, "other": [form, pre + [b] + post],
+                               "fp": fp})
     return cs
 
 
@@ -345,6 +360,10 @@ def observe(case):
             v = Vector(xs, name=case.get("name"))
             if isinstance(other, Vector) and isinstance(other, Table):
                 return {"skip": "operand became a table"}
+            if case.get("fp"):                               # both fingerprints computed (and memoised) first
+                v.fingerprint()
+                if isinstance(other, Vector):
+                    other.fingerprint()
             return {"r": _vres(lambda: fn(v, other)), "tbl": tbl}
     except Exception as e:
         return {"setup": _exc(e)}
